@@ -261,3 +261,24 @@ IDENTITY = [T + "Intercept.__eq__", T + "NegatedIntercept.__eq__", T + "Intercep
             T + "GroupSpecificTerm.__eq__", T + "Response.__eq__"]
 FUNCTIONS += IDENTITY
 
+
+# ---- Term.get_component (C03: create_extra_term picks the categorical components of a helper term by name) ----------------------------
+def cname(c):
+    """the name of a component (specification helper; executable)"""
+    return c.name
+
+
+def _cname(I, a, kw, node):
+    return I.getattr(a[0], "name", node)
+
+
+REG.externals[f"{__name__}.cname"] = _cname
+REG.contract(T + "Term.get_component", params={"name": "str"}, returns="any", tags=["C03", "C04"],
+             ensures=[  # the FIRST component of that name; None iff there is none
+                 "implies(forall(0, len(self.components), lambda k: cname(self.components[k]) != name), result is None)",
+                 "forall(0, len(self.components), lambda k: implies(cname(self.components[k]) == name and "
+                 "forall(0, k, lambda j: cname(self.components[j]) != name), result == self.components[k]))",
+                 "self.components == old(self.components)"],
+             loops={1: Loop(invariant=["0 <= _i1", "_i1 <= len(self.components)",
+                                       "forall(0, _i1, lambda j: cname(self.components[j]) != name)"])})
+FUNCTIONS += [T + "Term.get_component"]
